@@ -5,7 +5,7 @@
   Buidl.Gen.Schnorr, re-extracted from /repo on every run).  Specification: Buidl.Spec.BIP340.
   `sha256` is an arbitrary function.
 -/
-import Buidl.Proofs.Schnorr
+import Buidl.Proofs.SchnorrSign
 namespace Buidl.Props.C02
 open Buidl Buidl.EC Buidl.Schnorr
 
@@ -58,8 +58,92 @@ theorem parse_rejects_s_ge_n (b : Bytes) (h : beToNat ((b.drop 32).take 32) ≥ 
 theorem parse_rejects_r_ge_p (b : Bytes) (h : beToNat (b.take 32) ≥ P) : parse b = none :=
   parse_r_ge_P b h
 
+/-- an `r` that is not the x coordinate of a curve point is rejected -/
+theorem parse_rejects_non_x (b : Bytes) (h0 : beToNat (b.take 32) ≠ 0)
+    (hn : ∀ y, y < P → y * y % P ≠ (beToNat (b.take 32) ^ 3 + 7) % P) : parse b = none :=
+  parse_nonresidue b h0 hn
+
 /-- the constructor check -/
 theorem mkSig_rejects (R : Pt) (s : Nat) (h : s ≥ N) : mkSig R s = none := by
   rw [mkSig_eq, if_pos h]
+
+/-- serialize then parse: every finite curve point with even y (every R a signature can carry) and
+    every `s < n` -/
+theorem serialize_parse (x y s : Nat) (hv : Valid P A B (.aff x y)) (hy : y % 2 = 0) (hs : s < N) :
+    ∃ b, serialize (.aff x y) s = some b ∧ b.length = 64 ∧ parse b = some (.aff x y, s) :=
+  ⟨_, serialize_aff x y s hs, by simp [Spec.BIP340.bytes32], parse_serialize_even x y s hv hy hs⟩
+
+/-! ## lift_x (p ≡ 3 mod 4, Euler's criterion) -/
+
+/-- `lift_x(x)` succeeds on every x coordinate of a curve point and returns the point with even y … -/
+theorem liftX_complete (x y : Nat) (hv : Valid P A B (.aff x y)) :
+    Spec.BIP340.liftX x = some (evenRep (.aff x y)) :=
+  liftX_of_valid hv
+
+/-- … and whatever it returns is a curve point with that x and even y (so it fails when `x³ + 7` is
+    not a square, when `x ≥ p`, and at `x = 0`) -/
+theorem liftX_sound (x : Nat) (Q : Pt) (h : Spec.BIP340.liftX x = some Q) :
+    ∃ y, Q = .aff x y ∧ y % 2 = 0 ∧ Valid P A B (.aff x y) :=
+  liftX_valid h
+
+/-- the code's `parse_xonly` is `lift_x` on every non-zero 32-byte string (zero is read as infinity) -/
+theorem parseXonly_is_liftX (b : Bytes) (h0 : beToNat b ≠ 0) : Spec.BIP340.liftX (beToNat b) = parseXonly b :=
+  liftX_eq_parseXonly b h0
+
+/-! ## verification is BIP340 verification (group law, square roots in F_p) -/
+
+/-- For every 32-byte key, every message and every 64-byte signature, under every tag-cache state
+    satisfying the invariant: `S256Point.parse(pk).verify_schnorr(msg, SchnorrSignature.parse(sig))`
+    returns True exactly when the BIP340 verification algorithm succeeds; otherwise it returns False
+    or raises.  (R = 0, R ≥ p, R not an x coordinate, s ≥ n, the key 0 or not on the curve, an odd or
+    infinite `sG − eP` are all inside this statement.) -/
+theorem verifySchnorr_eq_spec (sha256 : Bytes → Bytes) (c : Cache) (hc : CacheOK sha256 c)
+    (pk m sig : Bytes) (hpk : pk.length = 32) (hsig : sig.length = 64) :
+    (∃ c', verifyRaw sha256 c pk m sig = some (true, c')) ↔ Spec.BIP340.verify sha256 pk m sig = true :=
+  verifyRaw_iff_spec sha256 c hc pk m sig hpk hsig
+
+/-! ## signing is BIP340 signing -/
+
+/-- `aux = None` means 32 zero bytes -/
+theorem signSchnorr_aux_default (sha256 : Bytes → Bytes) (c : Cache) (d : Nat) (m : Bytes) :
+    signSchnorr sha256 c d m none = signSchnorr sha256 c d m (some (List.replicate 32 0)) := rfl
+
+/-- For every secret in [1, n-1], every 32-byte message and aux, every cache state satisfying the
+    invariant: `sign_schnorr(...).serialize()` is exactly the output of the BIP340 signing algorithm
+    (both fail only in the event `k' = 0`). -/
+theorem signSchnorr_eq_spec (sha256 : Bytes → Bytes) (c : Cache) (hc : CacheOK sha256 c) (d : Nat) (m a : Bytes)
+    (hd1 : 1 ≤ d) (hd2 : d < N) (hm : m.length = 32) (ha : a.length = 32) :
+    (signSchnorr sha256 c d m (some a)).bind (fun x => serialize x.1.1 x.1.2) = Spec.BIP340.sign sha256 d m a := by
+  obtain ⟨px, py, hPd, h0, h1⟩ := sign_main sha256 c hc d m a hd1 hd2 hm ha
+  by_cases hk : nonceOf sha256 d px py m a = 0
+  · obtain ⟨hs, hm'⟩ := h0 hk
+    rw [hs, hm']; rfl
+  · obtain ⟨rx, ry2, s, c', _, _, hslt, hs, hm', _, _⟩ := h1 hk
+    rw [hs, hm']
+    exact serialize_aff rx ry2 s hslt
+
+/-- The self-verification inside sign_schnorr never raises, and the signature verifies under the x-only
+    public key: whenever the BIP340 nonce `k'` is non-zero (explicit hypothesis for an event of
+    probability ≈ 2⁻²⁵⁶), signing succeeds on both sides with the same 64 bytes, R has even y, and
+    BIP340 verification of the result succeeds. -/
+theorem sign_verifies (sha256 : Bytes → Bytes) (c : Cache) (hc : CacheOK sha256 c) (d : Nat) (m a : Bytes)
+    (hd1 : 1 ≤ d) (hd2 : d < N) (hm : m.length = 32) (ha : a.length = 32)
+    (hk : Spec.BIP340.nonce sha256 d m a ≠ some 0) :
+    ∃ sig R s c', signSchnorr sha256 c d m (some a) = some ((R, s), c') ∧ CacheOK sha256 c' ∧
+      serialize R s = some sig ∧ sig.length = 64 ∧ Spec.BIP340.sign sha256 d m a = some sig ∧
+      Spec.BIP340.verify sha256 (xonly (smul (d : Int) G)) m sig = true := by
+  obtain ⟨px, py, hPd, _, h1⟩ := sign_main sha256 c hc d m a hd1 hd2 hm ha
+  have hk' : nonceOf sha256 d px py m a ≠ 0 := by
+    intro h0
+    rw [spec_nonce_eq sha256 d px py m a hd1 hd2 hPd, h0] at hk
+    exact hk rfl
+  obtain ⟨rx, ry2, s, c', _, _, hslt, hs, hm', hc', hv⟩ := h1 hk'
+  refine ⟨_, _, s, c', hm', hc', serialize_aff rx ry2 s hslt, by simp [Spec.BIP340.bytes32], hs, ?_⟩
+  rw [hPd]; exact hv
+
+/-- the nonce hypothesis is satisfiable (a constant "hash" returning the byte 01: k' = 1) -/
+example : Spec.BIP340.nonce (fun _ => [1]) 1 [] [] = some 1 := by
+  unfold Spec.BIP340.nonce
+  decide +kernel
 
 end Buidl.Props.C02
